@@ -28,15 +28,15 @@ theorem encCycle_iter_sum (k : Key) (n : Nat) (s : St) :
 theorem load_store (s : St) : load (store s) s.sum = s := by
   cases s with | mk v0 v1 sum =>
   simp only [load, store]
-  have h0 : (bswap32 v0 ++ bswap32 v1).extractLsb' 32 32 = bswap32 v0 := by bv_decide
-  have h1 : (bswap32 v0 ++ bswap32 v1).extractLsb' 0 32 = bswap32 v1 := by bv_decide
+  have h0 : (bswap32 v0 ++ bswap32 v1).extractLsb' 32 32 = bswap32 v0 := by bv_decide (config := { timeout := 600 })
+  have h1 : (bswap32 v0 ++ bswap32 v1).extractLsb' 0 32 = bswap32 v1 := by bv_decide (config := { timeout := 600 })
   rw [h0, h1, bswap32_bswap32, bswap32_bswap32]
 
 theorem store_load (b : BitVec 64) (sum : BitVec 32) : store (load b sum) = b := by
-  simp only [load, store, bswap32_bswap32]; bv_decide
+  simp only [load, store, bswap32_bswap32]; bv_decide (config := { timeout := 600 })
 
 theorem encWords_sum (k : Key) (s : St) : (encWords k s).sum = s.sum + DELTA * 32#32 := by
-  simp only [encWords, encCycle_iter_sum]; bv_decide
+  simp only [encWords, encCycle_iter_sum]; bv_decide (config := { timeout := 600 })
 
 theorem decrypt_encrypt (k : Key) (b : BitVec 64) : decrypt k (encrypt k b) = b := by
   unfold decrypt encrypt
